@@ -1072,22 +1072,45 @@ func evmFeatures(in evmInput, pre evmObs, root *frameEv) []string {
 // at the amounts by which the property is missed.
 func evmClass(in evmInput, pre evmObs, root *frameEv, prop string) string {
 	txOK := root != nil && root.Err == ""
-	for _, s := range evmSites(in, root) {
+	sites := evmSites(in, root)
+	any := func(f func(s pcallSite) bool) bool {
+		for _, s := range sites {
+			if f(s) {
+				return true
+			}
+		}
+		return false
+	}
+	k5 := func(s pcallSite) bool { return bigOf(s.Value).Sign() > 0 && s.Caller != aO && txOK }
+	k3 := func(s pcallSite) bool { return s.FailedAbove && txOK && s.Caller != aO }
+	pays := func(s pcallSite) bool {
 		hasDel := bigOf(pre.Deleg[s.P.Who]).Sign() > 0
 		pending := hasDel && bigOf(pre.Reward[s.P.Who]).Sign() > 0
-		paysOut := pending && (s.P.Method == "delegate" || s.P.Method == "undelegate" || s.P.Method == "withdraw" || s.P.Method == "claim")
-		if bigOf(s.Value).Sign() > 0 && s.Caller != aO && txOK {
-			return "evm:value-to-stateful-precompile-tolerated" // K5
+		return pending && (s.P.Method == "delegate" || s.P.Method == "undelegate" || s.P.Method == "withdraw" || s.P.Method == "claim")
+	}
+	k9 := func(s pcallSite) bool { return s.P.Method == "delegate" && s.P.Who == aO && s.Caller != aO && txOK }
+	switch prop {
+	case "C05":
+		// only the revert-related class is a C05 finding
+		if any(k3) || any(k5) {
+			return "evm:precompile-effect-in-reverted-frame"
 		}
-		if s.FailedAbove && txOK && s.Caller != aO {
-			return "evm:precompile-effect-in-reverted-frame" // K3
+		return ""
+	case "C16":
+		if any(pays) {
+			return "evm:rewards-paid-out-by-precompile"
 		}
-		if paysOut {
-			return "evm:rewards-paid-out-by-precompile" // K4 / K6: reward payout is not mirrored into the cache
-		}
-		if s.P.Method == "delegate" && s.P.Who == aO && s.Caller != aO && txOK {
-			return "evm:contract-moves-origin-funds" // K9
-		}
+		return ""
+	}
+	switch {
+	case any(k5):
+		return "evm:value-to-stateful-precompile-tolerated" // K5
+	case any(k3):
+		return "evm:precompile-effect-in-reverted-frame" // K3
+	case any(pays):
+		return "evm:rewards-paid-out-by-precompile" // K4 / K6
+	case any(k9):
+		return "evm:contract-moves-origin-funds" // K9
 	}
 	return ""
 }
